@@ -166,8 +166,9 @@ Definition lookup (scope : N) (seg : Name) : option N :=
   find (fun c => name_eqb seg (nm c)) (kids g scope).
 
 (** split the relative part of an expression into 4-byte segments; before each segment the
-    bytes that cannot start a name ('_' or 'A'-'Z') are skipped; [None] when bytes are left
-    over that do not form a whole segment ([skipping]: such bytes have just been skipped) *)
+    bytes that cannot start a name ('_' or 'A'-'Z') are skipped, a multi-name prefix (0x2f)
+    together with the segment count that follows it; [None] when bytes are left over that do not
+    form a whole segment ([skipping]: such bytes have just been skipped) *)
 Fixpoint segments (skipping : bool) (e : list N) : option (list Name) :=
   match e with
   | [] => if skipping then None else Some []
@@ -177,6 +178,8 @@ Fixpoint segments (skipping : bool) (e : list N) : option (list Name) :=
         | b1 :: b2 :: b3 :: rest => option_map (cons (b0, b1, b2, b3)) (segments false rest)
         | _ => None
         end
+      else if b0 =? 0x2f then          (* MultiNamePrefix SegCount *)
+        match rest0 with _ :: rest1 => segments true rest1 | [] => None end
       else segments true rest0
   end.
 
